@@ -6,7 +6,9 @@ from __future__ import annotations
 import networkx as nx
 
 
-def analyse(grammar: dict):
+def analyse(grammar: dict, skip_nullable_prefix: bool = True):
+    """skip_nullable_prefix=False: only the FIRST item of every alternative counts as a first-position call (used to recognise
+    grammars whose left recursion is hidden behind a nullable prefix, which C17's quantifier excludes)"""
     rules = {r["name"]: r for r in grammar["rules"]}
     nullable = {n: False for n in rules}
 
@@ -47,7 +49,7 @@ def analyse(grammar: dict):
             for a in it["rhs"]["alts"]:
                 for i in a["items"]:
                     out |= initial(i)
-                    if not item_nullable(i):
+                    if not skip_nullable_prefix or not item_nullable(i):
                         break
             return out
         if k in ("opt", "repeat0", "repeat1", "gather"):
@@ -62,7 +64,7 @@ def analyse(grammar: dict):
                 for m in initial(i):
                     if m in rules:
                         g.add_edge(n, m)
-                if not item_nullable(i):
+                if not skip_nullable_prefix or not item_nullable(i):
                     break
     left, leader = {n: False for n in rules}, {n: False for n in rules}
     candidates = {}
